@@ -108,6 +108,8 @@ def events_for(cls, dt, cross=False):
     for a, vals in spec['extra'].items():
         for v in vals:
             ev.append(('set', a, v))
+        if a in ('ar_order', 'ma_order') and isinstance(vals[-1], int):
+            ev.append(('set', a, 'np:%d' % vals[-1]))      # the same order given as a numpy integer (e.g. an element of np.arange)
     sides = ['onesided', 'twosided', 'centerdc', 'default'] if (dt == 'real' and not cross) else ['twosided', 'centerdc', 'default']
     for s in sides:
         ev.append(('set', 'sides', s))
@@ -145,11 +147,20 @@ def construct(cls, data, **over):
     return getattr(spectrum, cls)(*c['args'], **kw)
 
 
+def _pyval(v):
+    """'np:4' encodes the value numpy.int64(4) in an event (JSON-able); the models use the plain integer."""
+    return int(v[3:]) if isinstance(v, str) and v.startswith('np:') else v
+
+
+def _implval(v):
+    return np.int64(int(v[3:])) if isinstance(v, str) and v.startswith('np:') else v
+
+
 def apply_event(obj, ev):
     if ev[0] == 'data':
         obj.data = DATA[ev[1]][ev[2]]
     elif ev[0] == 'set':
-        setattr(obj, ev[1], ev[2])
+        setattr(obj, ev[1], _implval(ev[2]))
     elif ev[0] == 'call':
         obj()
     elif ev[0] == 'read':
@@ -250,7 +261,7 @@ def model_attrs(cls, dt, hist):
         if ev[0] == 'data':
             data = DATA[ev[1]][ev[2]]
         elif ev[0] == 'set' and ev[1] != 'sides':
-            m[ev[1]] = resolve(ev[2], data) if ev[1] == 'NFFT' else ev[2]
+            m[ev[1]] = resolve(ev[2], data) if ev[1] == 'NFFT' else _pyval(ev[2])
     m['data'] = data
     return m
 
@@ -376,7 +387,7 @@ def repro(pt):
         if ev[0] == 'data':
             lines.append('o.data = DATA[%r][%d]' % (ev[1], ev[2]))
         elif ev[0] == 'set':
-            lines.append('o.%s = %r' % (ev[1], ev[2]))
+            lines.append('o.%s = %s' % (ev[1], ('np.int64(%s)' % ev[2][3:]) if isinstance(ev[2], str) and ev[2].startswith('np:') else repr(ev[2])))
         elif ev[0] == 'call':
             lines.append('o()')
         else:
